@@ -19,7 +19,8 @@ def explore(M, path_fn, par=16, timeout=None, tag='x'):
     """Explores all paths of path_fn(M). path_fn returns a JSON-serialisable dict (its observations / oracle verdicts)
     and may raise Panic / Unsupported / PathEnd / Exit.  Symbolic inputs must be registered in M.symvars (name -> z3 term)
     so that each row carries a witness.  Returns (rows, stats)."""
-    fd, res = tempfile.mkstemp(prefix='mirsym-%s-' % tag, suffix='.jsonl', dir=os.environ.get('VERIF_TMP', '/var/tmp/seed-verif'))
+    import re as _re
+    fd, res = tempfile.mkstemp(prefix='mirsym-%s-' % _re.sub(r'[^A-Za-z0-9_.-]', '_', tag), suffix='.jsonl', dir=os.environ.get('VERIF_TMP', '/var/tmp/seed-verif'))
     os.close(fd)
     t0 = time.time()
     ms.set_parallel(par)
